@@ -446,7 +446,7 @@ func init() {
 				ids := g.mixedList(hz, vz, g.n(8), 2)
 				th, tv := hz+g.R.Range(-4, 3), vz+g.R.Range(-4, 4)
 				th, tv = max64(0, min64(35, th)), max64(0, min64(35, tv))
-				if h := g.huge(); h > 0 && hz >= 6 {
+				if h := g.huge() + g.vast(); h > 0 && hz >= 6 {
 					ids = g.cluster(hz, vz, h)
 					th, tv = max64(0, hz-g.R.Range(0, 2)), max64(0, vz-g.R.Range(0, 2))
 				}
@@ -875,6 +875,9 @@ func init() {
 			if g.R.Chance(1, 25) {
 				n = 27 + g.R.Intn(120) // a block of tiles, several columns and rows, overlapping heights
 			}
+			if v := g.vast(); v > 0 && op == "tiles_to_ext" {
+				n = v
+			}
 			var ts [][5]int64
 			mixed := g.R.Chance(1, 3) && hz >= 2 && hz <= 33
 			for i := 0; i < n; i++ {
@@ -888,6 +891,9 @@ func init() {
 				w := int64(1)
 				if n > 20 {
 					w = 3
+				}
+				if n > 1000 {
+					w = 30
 				}
 				ts = append(ts, [5]int64{hz, mod(bx+g.R.Range(-w, w), m), mod(by+g.R.Range(-w, w), m), tvz, z})
 			}
@@ -928,7 +934,11 @@ func init() {
 	reg(&OpSpec{Name: "sp_to_ext_list", SetOp: true, Weight: 4,
 		Gen: func(g *Gen) *Call {
 			z := g.zoom(0, 35)
-			ext := g.cluster(z, z, g.n(6))
+			n := g.n(6)
+			if v := g.vast(); v > 0 && z >= 8 {
+				n = v
+			}
+			ext := g.cluster(z, z, n)
 			for i := range ext {
 				ext[i] = extToSp(ext[i])
 			}
@@ -938,7 +948,11 @@ func init() {
 	reg(&OpSpec{Name: "ext_to_sp_list", SetOp: true, Weight: 4,
 		Gen: func(g *Gen) *Call {
 			z := g.zoom(0, 35)
-			return &Call{Op: "ext_to_sp_list", IDs: g.cluster(z, z, g.n(6))}
+			n := g.n(6)
+			if v := g.vast(); v > 0 && z >= 8 {
+				n = v
+			}
+			return &Call{Op: "ext_to_sp_list", IDs: g.cluster(z, z, n)}
 		},
 		Exec: func(c *Call, a *Args) Result { return strs(shape.ConvertExtendedSpatialIdsToSpatialIds(a.IDs)) }})
 
